@@ -500,6 +500,24 @@ func rulesC03(c *Ctx) {
 			c.Check(ok, "ioConn.Read:returns-head#"+itoa(nr), rd, r, "a message handed to the reader is element 0 of the queue or of the decoded batch")
 		}
 		c.Pin("ioConn.Read message returns", nr, 2)
+		// the rest of a freshly decoded batch is queued on every path that hands out its head (a return that bypasses the
+		// assignment drops messages 2…n of that batch: calls answered by them never complete)
+		for i, r := range rd.Returns() {
+			if len(r.Results) != 2 || isNilIdent(r.Results[0]) {
+				continue
+			}
+			m, _, isIx := indexOf(r.Results[0])
+			if !isIx || rd.ObjOf(m) != batchVar {
+				continue
+			}
+			okq := false
+			for _, qw := range qWrites {
+				if sl, isSl := ast.Unparen(qw.RHS).(*ast.SliceExpr); qw.RHS != nil && isSl && rd.ObjOf(sl.X) == batchVar && rg.Dominates(rg.VertexOf(qw.Stmt), rg.VertexOf(r)) {
+					okq = true
+				}
+			}
+			c.Check(okq, "ioConn.Read:rest-queued-before-head-returned#"+itoa(i), rd, r, "t.queue = msgs[1:] dominates this return of msgs[0]")
+		}
 		// the queue is drained before new input is read
 		inF := c.Field(pM, "ioConn", "incoming")
 		okDrain := false
